@@ -906,6 +906,10 @@ func (s *summarizer) loadTerm(x *ssa.UnOp) *Term {
 		if len(init) == 0 && len(late) == 1 && late[0].field == "" && (s.definesBeforeUse(a, late[0].st) || s.storeDominates(late[0].st, x)) {
 			return s.term(late[0].st.Val)
 		}
+		// the same variable declared inside the loop body (v := xs[i]): its only store is the initialising one
+		if len(late) == 0 && len(init) == 1 && init[0].field == "" && (s.definesBeforeUse(a, init[0].st) || s.storeDominates(init[0].st, x)) {
+			return s.term(init[0].st.Val)
+		}
 		return typed(&Term{Op: "load", Args: []*Term{s.allocTerm(a, true)}}, x.Type())
 	case *ssa.FieldAddr:
 		if al, ok := a.X.(*ssa.Alloc); ok {
@@ -923,6 +927,11 @@ func (s *summarizer) loadTerm(x *ssa.UnOp) *Term {
 			// range-variable copy: whole-value store each iteration dominating this load
 			if len(init) == 0 && len(late) == 1 && late[0].field == "" && s.storeDominates(late[0].st, x) {
 				base := s.term(late[0].st.Val)
+				return s.fieldOfTerm(base, name, derefType(a.Type()))
+			}
+			// the same variable declared inside the loop body (v := xs[i]; ... &v.f ...)
+			if len(late) == 0 && len(init) == 1 && init[0].field == "" && s.storeDominates(init[0].st, x) {
+				base := s.term(init[0].st.Val)
 				return s.fieldOfTerm(base, name, derefType(a.Type()))
 			}
 			return typed(&Term{Op: "field", Val: name, Args: []*Term{s.allocTerm(al, true)}}, x.Type())
